@@ -27,7 +27,7 @@ LEVEL = "exploration"
 RULE = (
     "Hypothesis-generated modules of 1-4 classes (dataclass / plain mixed, <=2 bases each, depth <=3) whose bodies draw from: "
     "annotated fields with plain / field(default|default_factory|init|kw_only|repr) values, InitVar, ClassVar (subscripted and bare), "
-    "KW_ONLY marker (named `_`, `_kw` or `marker`), un-annotated attributes, properties / cached properties with and without return annotation, methods, hand-written __init__; decorator forms @dataclass / @dataclass() / "
+    "KW_ONLY marker (named `_`, `_kw` or `marker`), un-annotated attributes, properties / cached properties with and without return annotation, methods, hand-written __init__ (`def`, or bound by assignment to a module-level function); decorator forms @dataclass / @dataclass() / "
     "@dataclass(init=, kw_only=, other flag); 4 import forms; PEP 563 on/off; names from a pool of 5 so that overrides are common. "
     "Two cases in ten split the hierarchy over two top-level packages loaded one after the other (base package first) into one "
     "GriffeLoader, with InitVar fields in the base package. Two cases in ten spread the classes over a package (__init__, m1, m2; imports package->submodule, submodule->package, "
@@ -42,6 +42,8 @@ ASSUMPTIONS = [
     "(Class.parameters, i.e. own or inherited __init__); annotation and default texts are not part of the property",
     "a class whose resolved __init__ is object.__init__ (e.g. @dataclass(init=False) without any inherited constructor) may present "
     "either no __init__ or the empty synthesised `__init__(self)`",
+    "an `__init__` bound by assignment (`__init__ = module_level_function`) must stay the attribute Griffe visited; classes that "
+    "merely inherit such a constructor are not judged on their constructor (Griffe has no signature for an attribute)",
     "member names are unique inside one class body (re-binding inside a body is C01's subject); frozen=True is not generated",
     "two-package histories load the base package before the package that subclasses it (the order in which a dependency is "
     "available when the dependent package's on_package_loaded fires); the reverse order is not generated: on the unchanged tree a "
@@ -206,6 +208,14 @@ def judge(case: dict, py_of, g_of, code: str) -> list[Fail]:
 
             g_own = gcls.members.get("__init__")
             # hand-written __init__ is never replaced (lineno 0 marks the synthesised one)
+            if own_handwritten and any(it["t"] == "init" and it.get("assign") for it in cls["body"]):
+                # `__init__ = some_function` in the class body: CPython finds it in cls.__dict__ and never overwrites it;
+                # Griffe must keep the member it visited (an attribute), not put a synthesised function in its place
+                if g_own is None or getattr(g_own.kind, "value", "") != "attribute":
+                    fails.append(
+                        Fail("handwritten-kept", f"assigned-init-replaced:{where}", f"{cname}: `__init__ = _init_C{i}` (CPython __init__{fmt(py_params(pycls.__dict__['__init__']))}) is shown as {g_own!r}" + (f" __init__{fmt(griffe_params(g_own.parameters))}" if getattr(getattr(g_own, "kind", None), "value", "") == "function" else "") + f"\n{code}")
+                    )
+                continue
             if own_handwritten:
                 if g_own is None or getattr(g_own.kind, "value", "") != "function":
                     fails.append(Fail("handwritten-kept", f"missing:{where}", f"{cname}: hand-written __init__ is not a function member: {g_own!r}\n{code}"))
@@ -223,6 +233,10 @@ def judge(case: dict, py_of, g_of, code: str) -> list[Fail]:
                 continue
 
             # dataclass (decorated or inheriting) without hand-written __init__: the constructor Griffe presents for the class
+            inherited_init = call("total", lambda c=gcls: c.all_members.get("__init__"), what=f"{cname}.all_members")
+            if inherited_init is not None and getattr(inherited_init.kind, "value", "") == "attribute":
+                # the constructor is inherited from a class that binds __init__ by assignment: Griffe has no signature for it
+                continue
             presented = call("total", lambda c=gcls: c.parameters, what=f"{cname}.parameters")
             got = griffe_params(presented)
             if pycls.__init__ is object.__init__:
